@@ -344,3 +344,77 @@ def confirm_complete(pos_i, kind, k, msg_i, handler_i, acc=0):
         if cl.get('/no/such/route').status_code != 404 or cl.post('/getonly').status_code != 405:
             return True
     return False
+
+
+# ------------------------------------------------------------------ applications in one process do not share handler state
+def _handler_isolation(dbg_a, dbg_b, who_reraises, order):
+    """two applications on their DEFAULT error handlers (plain or debug); re-raising is switched on for one of them after
+    construction (what Application.serve(use_debugger=True) does): an uncaught exception escapes from that application
+    only - the other one still answers 500; a third application created afterwards too"""
+    def boom():
+        raise ValueError('boom')
+    mk = lambda dbg: Application([('/boom', boom)], debug=bool(dbg))
+    if order:
+        b = mk(dbg_b); a = mk(dbg_a)
+    else:
+        a = mk(dbg_a); b = mk(dbg_b)
+    apps = [a, b]
+    who = who_reraises if who_reraises < 2 else -1          # 2: nobody re-raises
+    if who >= 0:
+        apps[who].error_handler.reraise_uncaught = True
+    apps.append(mk(dbg_a))
+    dbg = [dbg_a, dbg_b, dbg_a]
+    for i, app in enumerate(apps):
+        req = Request(EnvironBuilder(path='/boom', headers={'Accept': 'text/plain'}).get_environ())
+        try:
+            resp = app.dispatch(req)
+        except ValueError:
+            if i != who:
+                return False          # escaped from an application that was not configured to re-raise
+            continue
+        if resp.status_code != 500:
+            return False
+        if i == who and not dbg[i]:
+            return False              # the plain ErrorHandler documents reraise_uncaught: the exception goes to the server
+    return True
+
+
+def ob_handler_isolation(dbg_a: int, dbg_b: int, who_reraises: int, order: int) -> bool:
+    with untraced():
+        return _handler_isolation(dbg_a, dbg_b, who_reraises, order)
+
+
+def confirm_handler_isolation(dbg_a, dbg_b, who_reraises, order):
+    return not _handler_isolation(dbg_a, dbg_b, who_reraises, order)
+
+
+# ------------------------------------------------------------------ a URL that matches a typed route but does not convert
+CONV_PATTERNS = ['/n/<x:int>', '/n/<x?int>', '/n/<x+int>', '/n/<x*int>', '/n/<x:float>', '/n/<x+float>', '/n/<x:str>']
+CONV_TAILS = ['7', '9' * 4300, '9' * 4301, '9' * 20000, '1//2', '/3', '1.' + '0' * 5000, '1.5//2', '1e999', '-' + '8' * 4301]
+
+
+def _converter_failure(patt_i, tail_i, dbg, fallback):
+    """every request gets a response: a path the typed pattern's regex accepts but the converter cannot convert (more
+    digits than int() takes, empty pieces between repeated slashes) is "no match" - 404, or the next route - never an
+    exception out of dispatch, never a 500"""
+    def ep(x=None):
+        return Response('ep')
+    routes = [(CONV_PATTERNS[patt_i], ep)]
+    if fallback:
+        routes.append(('/n/<rest*>', lambda rest: Response('fallback')))
+    app = Application(routes, debug=bool(dbg))
+    cl = app.get_local_client()
+    try:
+        resp = cl.get('/n/' + CONV_TAILS[tail_i])
+    except Exception:
+        return False
+    return resp.status_code in (200, 404)
+
+
+def ob_converter_failure(patt_i: int, tail_i: int, dbg: int, fallback: int) -> bool:
+    with untraced():
+        return _converter_failure(patt_i, tail_i, dbg, fallback)
+
+
+def confirm_converter_failure(patt_i, tail_i, dbg, fallback):
+    return not _converter_failure(patt_i, tail_i, dbg, fallback)
